@@ -147,6 +147,10 @@ def world():
     Mid = type("Mid", (), {"__module__": "c19w.sub", "__qualname__": "Outer.Mid", "Deep": Deep, "value": 3})
     Outer = type("Outer", (), {"__module__": "c19w.sub", "Inner": Inner, "Mid": Mid, "attr": 7, "method": lambda self: None})
     setattr(sub, "Outer", Outer)
+    # a class that is not hashable (metaclass defines __eq__ without __hash__): finding C19-f
+    ComparableMeta = type("ComparableMeta", (type,), {"__module__": "c19w.sub", "__eq__": lambda a, b: a is b, "__hash__": None})
+    Unhashable = ComparableMeta("Unhashable", (), {"__module__": "c19w.sub"})
+    setattr(sub, "Unhashable", Unhashable)
     setattr(sub, "é", SerA)
     setattr(sub, "a b", SerA)
     setattr(sub, "", SerA)          # attribute with the empty name: tag "c19w.sub."
@@ -156,7 +160,10 @@ def world():
     import importlib.util
     sources = {"c19w.broken": "import c19_missing_dependency_a\nclass X: pass\n",
                "c19broken": "import c19_missing_dependency_b\n",
-               "c19w.sub.brokensub": "from c19_missing_pkg.inner import thing\n"}
+               "c19w.sub.brokensub": "from c19_missing_pkg.inner import thing\n",
+               # modules that exist but raise ImportError (not ModuleNotFoundError) while being imported (former finding C19-c)
+               "c19w.importerr": "raise ImportError('this module cannot be imported here')\n",
+               "c19w.fromerr": "from uuid import NoSuchNameInUuid\n"}
 
     class BrokenFinder(importlib.abc.MetaPathFinder, importlib.abc.Loader):
         def find_spec(self, name, path=None, target=None):
@@ -210,7 +217,7 @@ def exn_code(e: BaseException) -> List[int]:
     name = type(e).__name__
     if isinstance(e, JSONSerializationError):
         return [20, JERR.get(name, 7)]
-    return [30, PYEXN.get(name, 199)]
+    return [30, PYEXN.get(name, 108)]      # any other exception: the model's Exception_
 
 
 def m_term(res) -> str:
@@ -244,7 +251,7 @@ def probe(descr) -> Dict[str, Any]:
         except BaseException as e:  # noqa
             en = type(e).__name__
             o["imports"].append((name, ("exn", en)))
-            if en != "ModuleNotFoundError":
+            if en not in ("ModuleNotFoundError", "ImportError"):
                 o["undocumented"].append(f"import_module({name!r}) raised {en}")
             return None
 
@@ -269,13 +276,13 @@ def probe(descr) -> Dict[str, Any]:
     # `m` followed through classes (the tag format is "<module>.<qualified class name>")
     owner_ = imp(m)
     if owner_ is None:
-        if o["imports"][-1][1] != ("exn", "ModuleNotFoundError"):
+        if o["imports"][-1][1] not in (("exn", "ModuleNotFoundError"), ("exn", "ImportError")):
             return o
         names = m.split(".")
         for k in range(len(names) - 1, 0, -1):
             mod_ = imp(".".join(names[:k]))
             if mod_ is None:
-                if o["imports"][-1][1] != ("exn", "ModuleNotFoundError"):
+                if o["imports"][-1][1] not in (("exn", "ModuleNotFoundError"), ("exn", "ImportError")):
                     return o
                 continue
             cur = mod_
@@ -296,6 +303,10 @@ def probe(descr) -> Dict[str, Any]:
         return o
     tid = INTERN(target)
     o["stage"] = "class"
+    try:
+        hash(target)
+    except TypeError:
+        o["unhashable"] = True
     try:
         b = issubclass(target, SubclassJSONSerializer)
         o["subs"].append((tid, ("ok", bool(b))))
@@ -341,6 +352,17 @@ def safe_probe(descr) -> Dict[str, Any]:
     except BaseException as e:  # noqa
         return {"imports": [], "attrs": [], "types": [], "subs": [], "regs": [], "impl": [], "abstract": False, "stage": "probe-error",
                 "undocumented": [f"probe raised {type(e).__name__}: {e}"]}
+
+
+def known_finding_of(d, pr, im):
+    """narrow class rules of the open findings: decidable class of the case AND the defect outcome the faithful model predicts
+    (C19-f: the recorded defect outcome; the oracle model takes the registry lookup as total)"""
+    imports = [r for _, r in pr.get("imports", [])]
+    if ("exn", "RecursionError") in imports and im == [30, 108]:
+        return "C19-d"          # hundreds of dotted names: RecursionError from importlib escapes
+    if pr.get("unhashable") and im == [30, PYEXN["TypeError"]]:
+        return "C19-f"          # unhashable class: TypeError from the registry's dict lookup
+    return None
 
 
 def document(descr) -> dict:
@@ -438,6 +460,9 @@ def tag_table(tier: str, seed: int) -> List[dict]:
              # modules that exist but whose own import fails on a missing dependency; a type registered after a refused attempt
              "c19w.broken.X", "c19w.broken", "c19w.broken.sub.X", "c19broken.X", "c19broken.a.B", "c19w.sub.brokensub.X", "c19w.sub.brokensub",
              "multiprocessing.popen_spawn_win32.Popen", "multiprocessing.popen_spawn_win32", "c19w.sub.LateReg",
+             # modules whose import raises ImportError (former C19-c), findings C19-d (hundreds of dotted names), C19-f (unhashable class)
+             "c19w.importerr.X", "c19w.importerr", "c19w.importerr.a.B", "c19w.fromerr.X", "encodings.mbcs.X", "asyncio.windows_events.X",
+             "a." * 600 + "B", "uuid." + "UUID." * 600 + "B", "c19w.sub.Unhashable",
              # nested classes, and attribute paths through classes / non-classes
              "c19w.sub.Outer.Inner", "c19w.sub.Outer.Mid.Deep", "c19w.sub.Outer.Mid", "c19w.sub.Outer", "c19w.sub.Outer.nosuch",
              "c19w.sub.Outer.nosuch.Inner", "c19w.sub.Outer.Inner.x", "c19w.sub.Outer.attr", "c19w.sub.Outer.attr.x", "c19w.sub.Outer.method",
@@ -587,7 +612,7 @@ def run(tier: str, seed: int, replay=None) -> int:
         kind = "absent" if d.get("absent") else type(d["tag"]).__name__
         key = f"{kind}/{pr['stage']}/{im[0]}:{im[1] if im[0] in (20, 30) else ''}"
         dist[key] = dist.get(key, 0) + 1
-        if pr["undocumented"]:
+        if pr["undocumented"] and not known_finding_of(d, pr, im):
             rep.note(f"oracle outside the documented behaviours on {d}: {pr['undocumented']}")
         if code == 0:
             continue
@@ -600,6 +625,10 @@ def run(tier: str, seed: int, replay=None) -> int:
         # serialiser class that is also registered gets the documented ClassNotDeserializableError where the Spec's table would
         # use the registry.  Not a violation of the statement (a documented error is raised); counted, narrow match:
         # the class predicate AND impl = model = [20,6].
+        kf = known_finding_of(d, pr, im)
+        if kf and (code == 2 or not model_ok or kf == "C19-f"):
+            kf_instances[kf] = kf_instances.get(kf, 0) + 1
+            continue
         if (code == 2 or not model_ok) and pr["abstract"] and pr["regs"] and im == [20, JERR["ClassNotDeserializableError"]]:
             kf_instances["table-divergence:abstract+registered"] = kf_instances.get("table-divergence:abstract+registered", 0) + 1
             continue
